@@ -164,3 +164,32 @@ Proof.
   split; [rewrite R1, N.eqb_refl; reflexivity|].
   intros j g A. rdrw. rewrite (if_not _ _ _ _ _ _ A). reflexivity.
 Qed.
+
+(* ---- any number of removals: the loop of strip_line_tokens_from_block that strips the trailing empty
+   lines of an indented code block calls token_remove_last_child once per trailing token.  Removing as many
+   last children as [ts] has tokens leaves exactly the chain in front of them, whatever the lengths;
+   no type, start, length, child or mate field of any token changes. *)
+Fixpoint iter_opt (n : nat) (f : heap -> option heap) (h : heap) : option heap :=
+  match n with O => Some h | S k => let? h := f h in iter_opt k f h end.
+
+Theorem remove_last_children_spec ts : forall h p x m,
+  rd h p Fch = Some x ->
+  seg h 0 ((x :: m) ++ ts) 0 -> NoDup ((x :: m) ++ ts) -> tail_ok h x (m ++ ts) ->
+  exists h', iter_opt (length ts) (fun h => token_remove_last_child h p) h = Some h' /\ length h' = length h /\
+    rd h' p Fch = Some x /\ seg h' 0 (x :: m) 0 /\ tail_ok h' x m /\
+    (forall j g, g <> Fnx -> g <> Ftl -> rd h' j g = rd h j g).
+Proof.
+  induction ts as [|t ts' IH] using rev_ind; intros h p x m Hch HS ND T.
+  - cbn [length iter_opt]. rewrite app_nil_r in *. exists h. split; [reflexivity|]. split; [reflexivity|]. split; [exact Hch|]. split; [exact HS|]. split; [exact T|]. reflexivity.
+  - rewrite app_length. cbn [length]. rewrite Nat.add_comm. cbn [plus iter_opt].
+    assert (E1 : (x :: m) ++ ts' ++ [t] = (x :: (m ++ ts')) ++ [t]) by (cbn [app]; rewrite app_assoc; reflexivity).
+    assert (E2 : m ++ ts' ++ [t] = (m ++ ts') ++ [t]) by (rewrite app_assoc; reflexivity).
+    rewrite E1 in HS, ND. rewrite E2 in T.
+    destruct (remove_last_child_spec h p x (m ++ ts') t Hch HS ND T) as (h1 & R1 & L1 & C1 & S1 & T1 & F1).
+    rewrite R1. cbn [obind].
+    assert (ND1 : NoDup ((x :: m) ++ ts')).
+    { apply nodup_app in ND. destruct ND as (N1 & _ & _). exact N1. }
+    destruct (IH h1 p x m C1 S1 ND1 T1) as (h2 & R2 & L2 & C2 & S2 & T2 & F2).
+    exists h2. split; [exact R2|]. split; [congruence|]. split; [exact C2|]. split; [exact S2|]. split; [exact T2|].
+    intros j g G1 G2. rewrite F2 by assumption. apply F1; intros [_ X]; contradiction.
+Qed.
